@@ -426,7 +426,15 @@ pub fn run(tier: Tier) -> i32 {
     let model = Reg { depth, ops: all_ops() };
     let nops = model.ops.len();
     let mut st = Stats::default();
-    let checker = model.clone().checker().threads(16).spawn_bfs().join();
+    let mut checker = model.clone().checker().threads(16).spawn_bfs().join();
+    if let Some(path) = checker.discovery("registry answers like the reference map") {
+        let acts: Vec<u8> = path.into_actions();
+        if model.judge(&acts).is_none() {
+            println!("note: a discovery of the parallel search did not reproduce sequentially (cross-thread interference); re-deciding with one worker");
+            st.count("parallel_discovery_not_reproducible_rerun_single_threaded", 1);
+            checker = model.clone().checker().threads(1).spawn_bfs().join();
+        }
+    }
     st.states = checker.unique_state_count() as u64;
     st.transitions = checker.state_count() as u64;
     st.validated = st.states * (PROBES.len() as u64 + 6);
